@@ -207,3 +207,48 @@ pub async fn verif_get_sessions(authenticated: &[u64], unnamed: &[u64]) -> Vec<u
     listed.sort();
     listed
 }
+
+/// `ConnectionAuthenticated(announcing)` handled by the real `NodeServer::handle` on a state whose sessions (ids 1..n, all named "peer") are given as
+/// (is_server, nonce; 0 = none); `before` are the ids already recorded as authenticated. Returns (ids authenticated afterwards, ids whose session
+/// actor was stopped).
+pub async fn verif_commit(sessions: &[(bool, u64)], before: &[u64], announcing: u64) -> (Vec<u64>, Vec<u64>) {
+    let (listener, _lh) = Actor::spawn(None, VerifListener, ()).await.unwrap();
+    let (me, _mh) = Actor::spawn(None, VerifServerActor, ()).await.unwrap();
+    let mut node_sessions = HashMap::new();
+    let mut connection_ids = HashMap::new();
+    let mut actors = Vec::new();
+    for (i, (srv, nonce)) in sessions.iter().enumerate() {
+        let n = i as u64 + 1;
+        let (s, _sh) = Actor::spawn(None, VerifSess, ()).await.unwrap();
+        let mut info = NodeServerSessionInformation::new(s.clone(), *srv, 100 + n, format!("addr{n}"));
+        info.peer_name = Some(auth_protocol::NameMessage { name: "peer".to_string(), flags: None, connection_string: "peer:1".to_string(), connection_id: 0 });
+        node_sessions.insert(s.get_id(), info);
+        connection_ids.insert(s.get_id(), NonZeroU64::new(*nonce));
+        actors.push((n, s));
+    }
+    let id_of = |n: u64| actors.iter().find(|(k, _)| *k == n).map(|(_, a)| a.get_id()).unwrap();
+    let mut state = NodeServerState {
+        listener,
+        node_sessions,
+        node_id_counter: 200,
+        this_node_name: auth_protocol::NameMessage { name: "this".to_string(), flags: None, connection_string: "this:1".to_string(), connection_id: 0 },
+        subscriptions: HashMap::new(),
+        connection_ids,
+        authenticated_sessions: before.iter().map(|n| id_of(*n)).collect(),
+    };
+    let server = NodeServer::new(0, "cookie".to_string(), "this".to_string(), "localhost".to_string(), None, None);
+    let _ = server.handle(me.clone(), NodeServerMessage::ConnectionAuthenticated(id_of(announcing)), &mut state).await;
+    for _ in 0..50 {
+        tokio::task::yield_now().await;
+    }
+    ractor::concurrency::sleep(ractor::concurrency::Duration::from_millis(20)).await;
+    let mut auth: Vec<u64> = actors.iter().filter(|(_, a)| state.authenticated_sessions.contains(&a.get_id())).map(|(n, _)| *n).collect();
+    auth.sort();
+    let mut stopped: Vec<u64> = actors
+        .iter()
+        .filter(|(_, a)| !matches!(a.get_status(), ractor::ActorStatus::Running | ractor::ActorStatus::Upgrading))
+        .map(|(n, _)| *n)
+        .collect();
+    stopped.sort();
+    (auth, stopped)
+}
